@@ -244,6 +244,21 @@ INSERT INTO z SELECT i, i%%13, CASE i%%3 WHEN 0 THEN 'k'||(i%%5) WHEN 1 THEN 'K'
 			`CREATE INDEX z_expr2 ON z (a * 2)`,
 			`VACUUM`,
 		}},
+		{"alter-defaults", []string{
+			`CREATE TABLE t (id INTEGER PRIMARY KEY, v)`,
+			`INSERT INTO t VALUES (1, 'one'), (2, 'two')`,
+			`ALTER TABLE t ADD COLUMN d_null`,
+			`ALTER TABLE t ADD COLUMN d_int DEFAULT 7`,
+			`ALTER TABLE t ADD COLUMN d_neg DEFAULT -3`,
+			`ALTER TABLE t ADD COLUMN d_str DEFAULT 'str'`,
+			`ALTER TABLE t ADD COLUMN d_txtint TEXT DEFAULT 1`,
+			`ALTER TABLE t ADD COLUMN d_intstr INTEGER DEFAULT '2'`,
+			`ALTER TABLE t ADD COLUMN d_realint REAL DEFAULT 3`,
+			`ALTER TABLE t ADD COLUMN d_numstr NUMERIC DEFAULT '4.5'`,
+			`ALTER TABLE t ADD COLUMN d_intbad INTEGER DEFAULT 'abc'`,
+			`INSERT INTO t (id, v) VALUES (3, 'three')`,
+			`UPDATE t SET d_int = 70 WHERE id = 1`,
+		}},
 		{"real-affinity-and-classes", []string{
 			`CREATE TABLE t (id INTEGER PRIMARY KEY, r REAL, n NUMERIC, i INTEGER, s TEXT, b BLOB, x)`,
 			`INSERT INTO t VALUES (1, 2.0, 2.0, 2.0, 2.0, 2.0, 2.0)`,
